@@ -305,7 +305,14 @@ func doCall(methodName string, f reflect.Value, params []reflect.Value) (out []r
 		}
 	}()
 
-	out = f.Call(params)
+	if f.Type().IsVariadic() {
+		// the last parameter was decoded as the slice it is on the wire (the
+		// client's reflect.MakeFunc hands over the variadic arguments as one
+		// slice); Call would take it for a single variadic element
+		out = f.CallSlice(params)
+	} else {
+		out = f.Call(params)
+	}
 	returned = true
 	return out, nil
 }
